@@ -183,4 +183,101 @@ theorem source_literals_match :
         ((i * CC.Src.glit "rounds_q" 0) ^^^ CC.Src.glit "rounds_q" 2)) :=
   ⟨CC.Src.src_groestl_roundConst, CC.Src.src_groestl_constP.2, CC.Src.src_groestl_constQ⟩
 
+/-- SOURCE TIE, phase 3 (the glue of hashes/groestl/src/lib.rs): every definition regenerated from `impl_digest!`
+    (both instantiations) and from the hand-written wrapper types `Groestl224(Groestl256)`, `Groestl384(Groestl512)`
+    equals the model, on the encoding of the struct as `(buffer, block_counter, compressor)` (`CC.Src.groestlEnc`, read back
+    with `CC.Src.groestlDec`), with `Compressor512` / `Compressor1024` instantiated by `comp512` / `comp1024`, for both
+    profiles, EVERY state (no invariant on buffer or counter is needed) and every input; outcomes are compared up to
+    the panic message (`CC.Src.noMsg`).  `new_truncated(bits: u32)`: every `bits`.  `finalize_into_dirty`: for every
+    previous content of `out` (it is overwritten completely).
+    Individual facts: `CC.Src.src_groestl_*` (lean/CC/Groestl/Src.lean, section "phase 3"); the generic lemmas over
+    `K : Comp C` are `CC.Src.groestl_new_truncated_glue_*`, `groestl_update_glue_*`, `groestl_finalize_dirty_glue_*`. -/
+theorem source_glue_match :
+    CC.Gen.Kernels.groestl_errors = [] ∧
+    -- the struct declarations: `Clone` is derived (field-wise copy); a hand-written `Clone` makes the translator fail
+    CC.Gen.Kernels.groestl_structs =
+      [("Groestl224", "struct", ["0"], ["Clone", "Debug"], ["Default"]),
+       ("Groestl256", "struct", ["buffer", "block_counter", "compressor"], ["Clone"], ["Default"]),
+       ("Groestl384", "struct", ["0"], ["Clone", "Debug"], ["Default"]),
+       ("Groestl512", "struct", ["buffer", "block_counter", "compressor"], ["Clone"], ["Default"]),
+       ("Compressor512", "struct", ["cv"], ["Clone"], []),
+       ("Compressor1024", "struct", ["cv"], ["Clone"], []),
+       ("X4", "struct", ["0", "1", "2", "3"], ["Clone", "Copy"], []),
+       ("X8", "struct", ["0", "1", "2", "3", "4", "5", "6", "7"], ["Clone", "Copy"], [])] ∧
+    -- `new_truncated`
+    (∀ bits : BitVec 32,
+      CC.Src.groestlEnc (newTruncated comp512 bits.toNat) = CC.Gen.Kernels.groestl_new_truncated_256 comp512.new bits) ∧
+    (∀ bits : BitVec 32,
+      CC.Src.groestlEnc (newTruncated comp1024 bits.toNat) = CC.Gen.Kernels.groestl_new_truncated_512 comp1024.new bits) ∧
+    -- `Default::default`
+    (Any.default .g224 = .g224 (CC.Src.groestlDec (CC.Gen.Kernels.groestl_default_224 comp512.new)) ∧
+     Any.default .g256 = .g256 (CC.Src.groestlDec (CC.Gen.Kernels.groestl_default_256 comp512.new)) ∧
+     Any.default .g384 = .g384 (CC.Src.groestlDec (CC.Gen.Kernels.groestl_default_384 comp1024.new)) ∧
+     Any.default .g512 = .g512 (CC.Src.groestlDec (CC.Gen.Kernels.groestl_default_512 comp1024.new))) ∧
+    -- `Reset::reset`
+    (∀ h : Hasher X4,
+      Any.reset (.g224 h)
+        = .g224 (CC.Src.groestlDec (CC.Gen.Kernels.groestl_reset_224 comp512.new h.buffer h.blockCounter h.compressor)) ∧
+      Any.reset (.g256 h)
+        = .g256 (CC.Src.groestlDec (CC.Gen.Kernels.groestl_reset_256 comp512.new h.buffer h.blockCounter h.compressor))) ∧
+    (∀ h : Hasher X8,
+      Any.reset (.g384 h)
+        = .g384 (CC.Src.groestlDec (CC.Gen.Kernels.groestl_reset_384 comp1024.new h.buffer h.blockCounter h.compressor)) ∧
+      Any.reset (.g512 h)
+        = .g512 (CC.Src.groestlDec (CC.Gen.Kernels.groestl_reset_512 comp1024.new h.buffer h.blockCounter h.compressor))) ∧
+    -- `Update::update`
+    (∀ (p : Profile) (h : Hasher X4) (data : List (BitVec 8)),
+      CC.Src.noMsg (CC.Gen.Kernels.groestl_update_224 comp512.input p h.buffer h.blockCounter h.compressor data
+          >>= fun t => .ok (Any.g224 (CC.Src.groestlDec t)))
+        = CC.Src.noMsg (Any.update p (.g224 h) data) ∧
+      CC.Src.noMsg (CC.Gen.Kernels.groestl_update_256 comp512.input p h.buffer h.blockCounter h.compressor data
+          >>= fun t => .ok (Any.g256 (CC.Src.groestlDec t)))
+        = CC.Src.noMsg (Any.update p (.g256 h) data)) ∧
+    (∀ (p : Profile) (h : Hasher X8) (data : List (BitVec 8)),
+      CC.Src.noMsg (CC.Gen.Kernels.groestl_update_384 comp1024.input p h.buffer h.blockCounter h.compressor data
+          >>= fun t => .ok (Any.g384 (CC.Src.groestlDec t)))
+        = CC.Src.noMsg (Any.update p (.g384 h) data) ∧
+      CC.Src.noMsg (CC.Gen.Kernels.groestl_update_512 comp1024.input p h.buffer h.blockCounter h.compressor data
+          >>= fun t => .ok (Any.g512 (CC.Src.groestlDec t)))
+        = CC.Src.noMsg (Any.update p (.g512 h) data)) ∧
+    -- `fn finalize_dirty`
+    (∀ (p : Profile) (h : Hasher X4),
+      CC.Src.noMsg (CC.Gen.Kernels.groestl_finalize_dirty_256 comp512.input comp512.finalizeDirty p h.buffer
+          h.blockCounter h.compressor)
+        = CC.Src.noMsg (finalizeDirty comp512 p h >>= fun r => .ok (r.2, CC.Src.groestlEnc r.1))) ∧
+    (∀ (p : Profile) (h : Hasher X8),
+      CC.Src.noMsg (CC.Gen.Kernels.groestl_finalize_dirty_512 comp1024.input comp1024.finalizeDirty p h.buffer
+          h.blockCounter h.compressor)
+        = CC.Src.noMsg (finalizeDirty comp1024 p h >>= fun r => .ok (r.2, CC.Src.groestlEnc r.1))) ∧
+    -- `FixedOutputDirty::finalize_into_dirty`
+    (∀ (p : Profile) (h : Hasher X4) (out : List (BitVec 8)),
+      CC.Src.noMsg (CC.Gen.Kernels.groestl_finalize_into_dirty_224 comp512.input comp512.finalizeDirty p h.buffer
+          h.blockCounter h.compressor out
+          >>= fun t => .ok (Any.g224 (CC.Src.groestlDec (t.1, t.2.1, t.2.2.1)), t.2.2.2))
+        = CC.Src.noMsg (Any.finalizeIntoDirty p (.g224 h)) ∧
+      CC.Src.noMsg (CC.Gen.Kernels.groestl_finalize_into_dirty_256 comp512.input comp512.finalizeDirty p h.buffer
+          h.blockCounter h.compressor out
+          >>= fun t => .ok (Any.g256 (CC.Src.groestlDec (t.1, t.2.1, t.2.2.1)), t.2.2.2))
+        = CC.Src.noMsg (Any.finalizeIntoDirty p (.g256 h))) ∧
+    (∀ (p : Profile) (h : Hasher X8) (out : List (BitVec 8)),
+      CC.Src.noMsg (CC.Gen.Kernels.groestl_finalize_into_dirty_384 comp1024.input comp1024.finalizeDirty p h.buffer
+          h.blockCounter h.compressor out
+          >>= fun t => .ok (Any.g384 (CC.Src.groestlDec (t.1, t.2.1, t.2.2.1)), t.2.2.2))
+        = CC.Src.noMsg (Any.finalizeIntoDirty p (.g384 h)) ∧
+      CC.Src.noMsg (CC.Gen.Kernels.groestl_finalize_into_dirty_512 comp1024.input comp1024.finalizeDirty p h.buffer
+          h.blockCounter h.compressor out
+          >>= fun t => .ok (Any.g512 (CC.Src.groestlDec (t.1, t.2.1, t.2.2.1)), t.2.2.2))
+        = CC.Src.noMsg (Any.finalizeIntoDirty p (.g512 h))) :=
+  ⟨CC.Src.src_groestl_clean, CC.Src.src_groestl_structs,
+   CC.Src.src_groestl_new_truncated_256, CC.Src.src_groestl_new_truncated_512,
+   ⟨CC.Src.src_groestl_default_224, CC.Src.src_groestl_default_256, CC.Src.src_groestl_default_384,
+    CC.Src.src_groestl_default_512⟩,
+   fun h => ⟨CC.Src.src_groestl_reset_224 h, CC.Src.src_groestl_reset_256 h⟩,
+   fun h => ⟨CC.Src.src_groestl_reset_384 h, CC.Src.src_groestl_reset_512 h⟩,
+   fun p h data => ⟨CC.Src.src_groestl_update_224 p h data, CC.Src.src_groestl_update_256 p h data⟩,
+   fun p h data => ⟨CC.Src.src_groestl_update_384 p h data, CC.Src.src_groestl_update_512 p h data⟩,
+   CC.Src.src_groestl_finalize_dirty_256, CC.Src.src_groestl_finalize_dirty_512,
+   fun p h out => ⟨CC.Src.src_groestl_finalize_into_dirty_224 p h out, CC.Src.src_groestl_finalize_into_dirty_256 p h out⟩,
+   fun p h out => ⟨CC.Src.src_groestl_finalize_into_dirty_384 p h out, CC.Src.src_groestl_finalize_into_dirty_512 p h out⟩⟩
+
 end CC.Thm.C07
